@@ -1093,7 +1093,25 @@ class StateEngine(object):
             """
             if not current_id in all_branch_results:
                 #print("Initialise the branch_results object")
-                length = branch_info["Length"]
+                length = branch_info.get("Length")
+                if length == None:
+                    """
+                    Only the record that a Map state leaves on the stack to
+                    re-enter itself for its next block of MaxConcurrency has
+                    no Length (see asl_state_collect_results). The results of
+                    that Map state were initialised when its first block was
+                    launched, so if they no longer exist it is because they
+                    were tidied up: the execution, or the Map or Parallel
+                    state enclosing this Map state, has ended whilst this
+                    event was outstanding. Treat it like the event of any
+                    other terminated branch, acknowledge and drop it, and
+                    don't leave behind metadata created just for this event.
+                    """
+                    self.event_dispatcher.acknowledge(id)
+                    if len(all_branch_results) == 0:
+                        del self.branch_metadata[execution_arn]
+                    return True
+
                 all_branch_results[current_id] = {
                     "results": [None]*length,
                     "ids": [None]*length,  # Unacknowledged messages
